@@ -332,6 +332,128 @@ def eval_moved(case):
     return {'v': v, 'nt': tuple(case), 'out': f'moved:{exp[0]}'}
 
 
+def eval_grown(case):
+    """history: the service is created (handle h kept), listed and validated once, then CHANGED THROUGH h (more interfaces
+    connected, some taken away again) and validated again - the verdict is the one the tables give for what the model holds now;
+    'relocated' keeps the service as it is and moves its nodes to another site after the first validation (no site declared)"""
+    stype, n_first, n_more, more_site, change = case
+    v = []
+    world.reset_all()
+    t = ExperimentTopology()
+    nodes = []
+
+    def mk(tag, site, k):
+        n = t.add_node(name=f'{tag}{k}', site=site)
+        nodes.append(n)
+        c = n.add_component(name='nic', model_type=ComponentModelType.SmartNIC_ConnectX_6)
+        return ([i for i in c.interface_list if i.name.endswith('p1')][0], 'DedicatedPort', site)
+    first = [mk('a', 'S1', k) for k in range(n_first)]
+    more = [mk('b', more_site, k) for k in range(n_more)]
+    ctx = f'[{stype}: {n_first} ports at S1, listed+validated, then {change} {n_more} at {more_site} through the handle add_network_service returned]'
+    try:
+        h = t.add_network_service(name='svc', nstype=ServiceType[stype], interfaces=[p for p, _, _ in first])
+    except Exception as e:
+        return {'v': v, 'nt': None, 'out': 'not-constructible'}
+    # first look at the service: listing, printing, validating (whatever the verdict)
+    _ = [str(x) for x in t.network_services.values()]
+    _ = [x.interface_list for x in t.network_services.values()]
+    try:
+        t.validate()
+        first_verdict = 'accept'
+    except Exception:
+        first_verdict = 'reject'
+    now = list(first)
+    try:
+        if change == 'grow':
+            for pr in more:
+                h.connect_interface(pr[0])
+                now.append(pr)
+        elif change == 'grow-shrink':
+            for pr in more:
+                h.connect_interface(pr[0])
+                now.append(pr)
+            h.disconnect_interface(now[0][0])
+            now = now[1:]
+        elif change == 'swap':
+            for pr in first:
+                h.disconnect_interface(pr[0])
+            now = []
+            for pr in more:
+                h.connect_interface(pr[0])
+                now.append(pr)
+        elif change == 'relocated':
+            for n in nodes:
+                n.site = more_site
+            now = [(p_, k_, more_site) for p_, k_, _ in first]
+    except Exception as e:
+        v.append((f'grown/change-raises/{stype}/{change}', f'{type(e).__name__}: {e} {ctx}'))
+        return {'v': v, 'nt': tuple(case), 'out': 'bad'}
+    exp = predict(stype, now, None, None)
+    try:
+        t.validate()
+        got, why = 'accept', ''
+    except Exception as e:
+        got, why = 'reject', f'{type(e).__name__}: {str(e)[:140]}'
+    if exp[0] != 'unspecified' and got != exp[0]:
+        clause = exp[1].replace(' ', '-') if exp[0] == 'reject' else 'valid'
+        # no site was ever declared here: a complaint about a 'specified' site can only be about the one the first,
+        # successful validation recorded itself
+        recorded = first_verdict == 'accept' and got == 'reject' and ('originally specified site' in why or 'was specified in constructor' in why)
+        kind = 'recorded-site-taken-as-declared' if recorded else clause
+        v.append((f'grown/{"accepts-invalid" if got == "accept" else "rejects-valid"}/{kind}/{change}',
+                  f'validate() after the change {got}s ({why}) but the tables say {exp} for the {len(now)} interfaces now connected '
+                  f'(first validation: {first_verdict}) {ctx}'))
+    return {'v': v, 'nt': tuple(case), 'out': f'grown:{first_verdict}->{exp[0]}'}
+
+
+def eval_peered(case):
+    """two services of one type, one dedicated port each, peered with each other: validation judges each by the tables (the
+    peering port is not an interface of a node and adds no site)"""
+    stype, site_b = case
+    v = []
+    world.reset_all()
+    t = ExperimentTopology()
+    ports = []
+    for tag, site in (('aa', 'S1'), ('bb', site_b)):
+        c = t.add_node(name=tag, site=site).add_component(name='nic', model_type=ComponentModelType.SmartNIC_ConnectX_6)
+        ports.append(([i for i in c.interface_list if i.name.endswith('p1')][0], 'DedicatedPort', site))
+    ctx = f'[two {stype} services at S1 and {site_b}, peered]'
+    try:
+        sa = t.add_network_service(name='sa', nstype=ServiceType[stype], interfaces=[ports[0][0]])
+        sb = t.add_network_service(name='sb', nstype=ServiceType[stype], interfaces=[ports[1][0]])
+        sa.peer(sb)
+    except Exception as e:
+        return {'v': v, 'nt': None, 'out': 'not-peerable'}
+    # whether the peering port counts towards the interface limits is not specified: decided only where it makes no difference
+    exp = [predict(stype, [pr], None, None) for pr in ports] + [predict(stype, [pr, pr], None, None) for pr in ports]
+    want = 'accept' if all(e[0] == 'accept' for e in exp) else 'reject' if all(e[0] == 'reject' for e in exp[:2]) and \
+        all(e[0] == 'reject' for e in exp[2:]) else 'unspecified'
+    try:
+        t.validate()
+        got, why = 'accept', ''
+    except Exception as e:
+        got, why = 'reject', f'{type(e).__name__}: {str(e)[:140]}'
+    if want != 'unspecified' and got != want:
+        v.append((f'peered/{"accepts-invalid" if got == "accept" else "rejects-valid"}/{stype}',
+                  f'validate() {got}s ({why}) but each service alone gives {exp} {ctx}'))
+    return {'v': v, 'nt': tuple(case), 'out': f'peered:{want}'}
+
+
+def grown_cases(tier):
+    out = []
+    for st in PINNED:
+        for change in ('grow', 'grow-shrink', 'swap', 'relocated'):
+            for n_first in (0, 1, 2):
+                for n_more in ((0,) if change == 'relocated' else (1, 2)):
+                    for site in ('S1', 'S2'):
+                        if change == 'relocated' and (site == 'S1' or n_first == 0):
+                            continue
+                        if change == 'swap' and n_first == 0:
+                            continue
+                        out.append((st, n_first, n_more, site, change))
+    return out
+
+
 def eval_same_named_ports(case):
     """two connected interfaces whose derived service-port names coincide (legal names): every one of them counts"""
     stype, pattern = case
@@ -375,7 +497,7 @@ def eval_same_named_ports(case):
     return {'v': v, 'nt': tuple(case), 'out': f'same-named:{exp[0]}'}
 
 
-REPLAY = {'services': eval_service, 'same-named-ports': eval_same_named_ports, 'nodes': eval_node, 'tables': eval_meta, 'mirror': eval_mirror, 'moved': eval_moved}
+REPLAY = {'services': eval_service, 'same-named-ports': eval_same_named_ports, 'nodes': eval_node, 'tables': eval_meta, 'mirror': eval_mirror, 'moved': eval_moved, 'grown': eval_grown, 'peered': eval_peered}
 
 
 def service_cases(tier):
@@ -424,6 +546,15 @@ def run(report):
                        rule='every service type x 1..2 dedicated ports: declared site S1, connected at S1, validated, every interface '
                             'disconnected, the same number connected at S1 / S2, validated again against the tables')
     report.require(gm['outcomes'].get('moved:reject', 0) > 0 and gm['outcomes'].get('moved:accept', 0) > 0, 'moved services accepted and rejected')
+    gg = explore_cases(report, 'grown', eval_grown, grown_cases(report.tier), chunk=4,
+                       rule='every service type x 0..2 dedicated ports at S1: created (handle kept), listed, printed and validated '
+                            'once, then changed through the kept handle (1..2 more ports at S1 / S2 connected | connected and the '
+                            'first one taken away | all swapped | the nodes moved to S2 with the service untouched), validated again '
+                            'against the tables for what is connected now')
+    report.require(any(k.endswith('->reject') for k in gg['outcomes']) and any(k.endswith('->accept') for k in gg['outcomes']),
+                   'changed services accepted and rejected')
+    explore_cases(report, 'peered', eval_peered, [(st, sb) for st in PINNED for sb in ('S1', 'S2')], chunk=2,
+                  rule='every service type x (same site | two sites): two one-port services peered with each other, validated')
     explore_cases(report, 'same-named-ports', eval_same_named_ports,
                   [(st, pat) for st in PINNED for pat in ('two-nodes-two-sites', 'two-subs-one-node', 'three-subs-one-node')], chunk=4,
                   rule='every service type over interfaces whose derived service-port names coincide (two nodes on two sites; two '
